@@ -1472,3 +1472,14 @@ VARIANTS['C19'] += [
         "                    digits = frac[:6]\n                    kwargs['microsecond'] = int(digits, 10) * 10 ** (6 - len(digits))\n")],
       None),
 ]
+
+VARIANTS['C03'] += [
+    V('change announced only while a cached encoding exists',
+      [(MP4, "        if self._encoded is not None:\n            self._encoded = None\n            if self.parent:\n                self.parent._invalidate()\n",
+        "        if self._encoded is not None:\n            self._encoded = None\n            self.trigger_change()\n            if self.parent:\n                self.parent._invalidate()\n"),
+       (MP4, "                self._invalidate()\n                self.trigger_change()\n        object.__setattr__(self, name, value)\n", "                self._invalidate()\n        object.__setattr__(self, name, value)\n")],
+      'R03.9', '__setattr__'),
+    V('neutral: change announced before the cached encoding is dropped',
+      [(MP4, "                self._invalidate()\n                self.trigger_change()\n        object.__setattr__(self, name, value)\n", "                self.trigger_change()\n                self._invalidate()\n        object.__setattr__(self, name, value)\n")],
+      None),
+]
